@@ -229,6 +229,40 @@ def attach_cases(rng, thorough):
     return out
 
 
+def gen_resmgr_hist(rng):
+    evs, ids = [], [1, 2, 3, 4]
+    for _ in range(rng.choice([2, 4, 6, 9])):
+        x = rng.random()
+        if x < 0.5:
+            evs.append({"op": "register", "a": rng.choice(ids), "b": 1 if rng.random() < 0.3 else 0})
+        elif x < 0.7:
+            evs.append({"op": "unregister", "a": rng.choice(ids)})
+        else:
+            evs.append({"op": "dispose_all"})
+    return {"mode": "res_mgr", "events": evs}
+
+
+def resmgr_cases(rng, thorough):
+    """ResourceManager: sequential Register / Unregister / DisposeAll histories (compared with the model), the timeout path
+    of DisposeWithTimeout with a resource (id >= 100) that blocks until the gate opens, DisposeAll while another is parked,
+    concurrent DisposeAll"""
+    E = lambda *xs: [dict(zip(("op", "a", "b"), x if isinstance(x, tuple) else (x,))) for x in xs]
+    cs = [{"mode": "res_mgr", "events": E(("register", 1, 0), ("register", 100, 0), ("timeout", 30), "gate"), "timeout_path": True},
+          {"mode": "res_mgr", "events": E(("register", 100, 1), ("timeout", 20), "gate", ("register", 2, 0), ("timeout", 500)), "timeout_path": True},
+          {"mode": "res_mgr", "events": E(("register", 1, 1), ("register", 2, 0), ("timeout", 500), ("register", 3, 0), "dispose_all")},
+          {"mode": "res_mgr", "events": E(("register", 1, 0), ("register", 2, 1), ("register", 1, 0), ("unregister", 2), ("race", 4))},
+          {"mode": "res_mgr", "events": E(("register", 100, 0), "dispose_all", ("register", 5, 0), "dispose_all", "gate", "dispose_all")},
+          {"mode": "res_mgr", "events": E(("register", 1, 0), ("register", 2, 0), ("register", 3, 1), ("race", 8), ("register", 4, 0), ("race", 2))}]
+    cs += [gen_resmgr_hist(rng) for _ in range(400 if thorough else 60)]
+    return cs
+
+
+def overlap_cases(thorough):
+    """closer A parked inside the stream Close of a session connection; k more closers (mask: 1 = SessionManager.Close)"""
+    ks = [(1, 0), (1, 1), (2, 0), (2, 1), (3, 0), (3, 5)] + ([(2, 2), (3, 2), (3, 7)] if thorough else [])
+    return [{"mode": "session_overlap", "side": side, "k": k, "reads": m} for side in (0, 1) for k, m in ks]
+
+
 def race_cases(rng, thorough):
     m = 25 if thorough else 1
     cs = []
@@ -259,7 +293,7 @@ def zenc(z):
 
 
 def case_value(c, o, tunnel_fixed, traffic_fixed, stream_fixed=True, start_ctx_first=True, start_spawns=3, writer_holds=False, flags=None):
-    flags = flags or {"lock_first": True, "mapping_early_return": False, "bridge_fast_path": False}
+    flags = flags or {"lock_first": True, "mapping_early_return": False, "bridge_fast_path": False, "remove_first": True, "chan_buffered": True}
     m = c["mode"]
     if m == "tunnel_start":
         sd = o["steps_done"]
@@ -268,6 +302,13 @@ def case_value(c, o, tunnel_fixed, traffic_fixed, stream_fixed=True, start_ctx_f
         elif sd == -2:     # Start had returned before the point was reached
             sd = start_spawns + 4
         return [5, start_ctx_first, start_spawns, sd, [o["state"], o["on_closed"], 1 if o["start_ok"] else 0, 1 if o["left"] else 0]]
+    if m == "session_overlap":
+        return [10, flags["remove_first"], bool(c["side"]), [bool(c["reads"] >> i & 1) for i in range(max(1, c["k"]))], o["stream_closes"]]
+    if m == "res_mgr":
+        if c.get("timeout_path"):
+            return [12, flags["chan_buffered"], bool(o["left"])]
+        ops = [[{"register": 0, "unregister": 1, "dispose_all": 2}[e["op"]], e.get("a", 0), bool(e.get("b", 0))] for e in c["events"]]
+        return [11, ops, list(o["dispose_log"]), [{"ok": 0, "err": 1}.get(r, r) for r in o["results"]]]
     if m == "stream_queue":
         return [7, flags["lock_first"], bool(c.get("started")), o["b_result"] == "err", o["b_calls"] > 0]
     if m == "fault_close":
@@ -332,14 +373,15 @@ def run(ctx, only_cases=None):
     stream_fixed = not flag("StreamCloseNilsReader")
     start_ctx_first, writer_holds = flag("TunnelStartSetCtxBeforeCas"), flag("SourceWriterHoldsLockAcrossWrite")
     flags3 = {"lock_first": flag("StreamLockBeforeClosedCheck"), "mapping_early_return": flag("MappingCleanupEarlyReturn"),
-              "bridge_fast_path": flag("BridgeCloseFastPath")}
+              "bridge_fast_path": flag("BridgeCloseFastPath"), "remove_first": flag("CloseConnectionRemovesFirst"),
+              "chan_buffered": flag("DisposeResultChanBuffered")}
     start_spawns = int(re.search(r"Definition TunnelStartSpawns : nat := (\d+)\.", gen_text).group(1))
     broken = None
     try:
         pinfo = vlib.coq_properties("C16")
         vlib.coq_make(["Proofs/SideC16.vo"])
         vlib.proof_coverage(ctx, pinfo, "make -C coq Properties/C16.vo Proofs/SideC16.vo && coqc Properties/C16.v (Print Assumptions audit)",
-                            extra_obligations=10)
+                            extra_obligations=12)
     except vlib.Broken as b:
         broken = b
     ibin = None
@@ -365,6 +407,7 @@ def run(ctx, only_cases=None):
         cases += start_close_cases(ctx.rng, thorough)
         cases += stall_cases(thorough)
         cases += queue_cases() + fault_cases(ctx.rng, thorough) + attach_cases(ctx.rng, thorough)
+        cases += resmgr_cases(ctx.rng, thorough) + overlap_cases(thorough)
         cases += race_cases(ctx.rng, thorough)
     is_instr = lambda c: c["mode"] == "tunnel_sched" or (c["mode"] == "tunnel_start" and c["point"] >= 0)
     plain = [c for c in cases if not is_instr(c)]
@@ -395,7 +438,9 @@ def run(ctx, only_cases=None):
     # ---- model vs implementation on the deterministic modes ----
     # stream_gate reads=1 parks inside io.ReadFull, which holds its own copy of the reader: outside the model's granularity
     det = [(c, o) for c, o in done if c["mode"] in ("dispose_hist", "tunnel_seq", "tunnel_sched", "traffic_gate", "stream_gate",
-                                                     "tunnel_start", "bridge_stall", "stream_queue", "fault_close", "bridge_attach")
+                                                     "tunnel_start", "bridge_stall", "stream_queue", "fault_close", "bridge_attach", "session_overlap", "res_mgr")
+           and not (c["mode"] == "res_mgr" and not c.get("timeout_path") and any(e["op"] not in ("register", "unregister", "dispose_all") or e.get("a", 0) >= 100 for e in c["events"]))
+           and ("stream_closes" in o or c["mode"] != "session_overlap") and ("dispose_log" in o or c["mode"] != "res_mgr")
            and o.get("key") not in ("stream-queue-setup", "fault-setup") and ("counts" in o or c["mode"] != "fault_close")
            and ("b_result" in o or c["mode"] != "stream_queue")
            # ReadExact / WriteExact re-test the context inside their loop before every call: on a check-before-lock tree they
@@ -451,13 +496,15 @@ def run(ctx, only_cases=None):
             nontriv.add(json.dumps(c, sort_keys=True))
         elif c["mode"] == "bridge_stall" or (c["mode"] == "stream_queue" and o.get("b_parked_on_lock")):
             nontriv.add(json.dumps(c, sort_keys=True))
+        elif c["mode"] == "session_overlap" or (c["mode"] == "res_mgr" and len(c["events"]) >= 3):
+            nontriv.add(json.dumps(c, sort_keys=True))
         elif c["mode"] == "fault_close" and c["reads"] != 0:
             nontriv.add(json.dumps(c, sort_keys=True))
         elif c["mode"] == "bridge_attach" and any(e["op"].startswith("attach") for e in c["events"]):
             nontriv.add(json.dumps(c, sort_keys=True))
     trials = sum(o.get("trials", 0) for c, o in done if c["mode"].endswith("race"))
     samples = []
-    for mode in ("dispose_hist", "tunnel_sched", "traffic_gate", "tunnel_start", "bridge_stall", "stream_queue", "fault_close", "bridge_attach", "tunnel_race"):
+    for mode in ("dispose_hist", "tunnel_sched", "traffic_gate", "tunnel_start", "bridge_stall", "stream_queue", "fault_close", "bridge_attach", "res_mgr", "session_overlap", "tunnel_race"):
         for c, o in done:
             if c["mode"] == mode:
                 samples.append({"case": c, "observed": {k: v for k, v in o.items() if k not in ("prop_msg",)}})
@@ -473,7 +520,10 @@ def run(ctx, only_cases=None):
                 "forwarding write is blocked on a stalled source / target peer (watchdog 3 s), a stream-processor operation B (5 kinds) parked on "
                 "the read / write lock behind an in-flight A while Close runs and returns (goroutine-dump poll), every failure pattern of the "
                 "sub-component Close calls of the composite shutdown paths (mapping handler, StreamProcessor, SessionManager, Bridge, Tunnel) "
-                "with 1 or 3 concurrent callers, attach-after-close histories of the bridge up to length 3 ended by the lifecycle's Close. non-trivial = at least two closers/reporters really "
+                "with 1 or 3 concurrent callers, attach-after-close histories of the bridge up to length 3 ended by the lifecycle's Close, ResourceManager histories "
+                "(Register / Unregister / DisposeAll, the timeout path of DisposeWithTimeout with a gated slow resource, DisposeAll while "
+                "another is parked, concurrent DisposeAll), a closer parked inside the stream Close of a session connection while 1-3 more "
+                "closers (CloseConnection / SessionManager.Close) run. non-trivial = at least two closers/reporters really "
                 "interleave (>=2 closes or close+add; >=2 parked closers; >=2 sequential ops; >=2 started reporters with a positive add; a Close that really landed inside Start; every stalled-peer case; a really parked queued operation; a non-empty failure mask; a history with an attach); "
                 "distinct by the full case. Contention loops (K goroutines behind a barrier, exactly-once counters, goroutine-dump diff) are "
                 "counted separately in contention_trials." % (6 if thorough else 4),
@@ -488,7 +538,8 @@ def run(ctx, only_cases=None):
                          "stream_onclose_keeps_reader": stream_fixed,
                          "start_setctx_before_cas": start_ctx_first, "source_writer_holds_lock_across_write": writer_holds,
                          "stream_lock_before_closed_check": flags3["lock_first"], "mapping_cleanup_early_return": flags3["mapping_early_return"],
-                         "bridge_close_fast_path": flags3["bridge_fast_path"]},
+                         "bridge_close_fast_path": flags3["bridge_fast_path"],
+                         "close_connection_removes_first": flags3["remove_first"], "dispose_result_chan_buffered": flags3["chan_buffered"]},
         "tunnel_race_double_bodies_seen": sum(o.get("doubles", 0) for c, o in done if c["mode"] == "tunnel_race"),
         "generated_file_changed": gen_changed,
     })
